@@ -57,7 +57,7 @@ func printManifest() {
 				Text:      "Structural necessary conditions of the property, decided exhaustively over every path / call site / table row of the anchored mechanism on /repo's current source (static analysis; nothing is executed). " + d.Explanation,
 				DesignRef: "DESIGN.md §3 " + id},
 			Note:      "Trusted base: go/types + golang.org/x/tools/go/ssa v0.50.0 and the gatecheck primitives (guard cut, lock set, provenance, bounds). The behavioural statement as a whole is not decided — only the clauses named in the level text; interface/function-value calls are followed only where the rule says so.",
-			Technique: "static analysis: " + d.Rule,
+			Technique: "static analysis: " + fullRule(d),
 		})
 	}
 	type na struct {
